@@ -7,6 +7,7 @@ import SlotVerif.Proofs.MinKey
 import SlotVerif.Proofs.Add
 import SlotVerif.Proofs.AddGroup
 import SlotVerif.Proofs.AddSeq
+import SlotVerif.Proofs.AddInv
 /-!
 # C09 — Insertion is canonical: known terms create nothing, lookup agrees with add
 
@@ -229,6 +230,17 @@ theorem add_returns_canonical_handle {s s' : Snap} {n syn : Node} {f2o : SlotMap
     (h : Snap.addNew s n f2o syn data = some (s', a)) :
     s'.uf[a.id]? = some { id := a.id, m := SlotMap.identity (SlotMap.keys f2o) } ∧ Snap.find s' a = some a :=
   Snap.add_returns_canonical h
+
+/-- the union-find half of the snapshot invariant (`ufOK`: every entry a well-formed map, every leader entry a partial identity)
+survives `add`, on the hit and on the miss, and therefore every sequence of modelled insertions; the class half of `checkInv`
+for the new class is still decided per run on the dump -/
+theorem insertion_keeps_union_find_consistent {s s' : Snap} {n syn : Node} {f2o : SlotMap} {data : String} {a : AppId}
+    (hok : Snap.ufOK s = true) (h : Snap.add s n f2o syn data = some (s', a)) : Snap.ufOK s' = true :=
+  Snap.add_whole_keeps_ufOK hok h
+
+theorem insertions_keep_union_find_consistent {s s'' : Snap} (hok : Snap.ufOK s = true) (hi : Snap.Inserts s s'') :
+    Snap.ufOK s'' = true :=
+  Snap.inserts_keep_ufOK hok hi
 
 /-- non-vacuity: on the empty e-graph the node `f2($8, $12)` (variant 7, two slot fields) is a miss; with the fresh slots
 `101, 105` handed in, the model allocates class 0 -/
